@@ -159,6 +159,8 @@ var c06Hand = []struct{ name, yaml, json string }{
 	{"alias-key-only-aliases-are-keys", "- &a x\n- {*a : 1}\n", `["x",{"x":1}]`},
 	{"merge-key", "a: &m {p: 1, q: 2}\nb:\n  <<: *m\n  q: 3\n", `{"a":{"p":1,"q":2},"b":{"p":1,"q":3}}`},
 	{"alias-in-nested-flow", "x: &s [1, {k: v}]\ny: {z: [*s, *s]}\n", `{"x":[1,{"k":"v"}],"y":{"z":[[1,{"k":"v"}],[1,{"k":"v"}]]}}`},
+	{"anchor-name-defined-again", "a: &x 1\nb: *x\nc: &x 2\nd: *x\ne: &x {p: 3}\nf: {q: *x}\n", `{"a":1,"b":1,"c":2,"d":2,"e":{"p":3},"f":{"q":{"p":3}}}`},
+	{"merge-source-defined-again", "a: &x {p: 1}\nb: {<<: *x}\nc: &x {p: 2, r: 3}\nd: {<<: *x}\n", `{"a":{"p":1},"b":{"p":1},"c":{"p":2,"r":3},"d":{"p":2,"r":3}}`},
 	{"alias-to-scalar-in-key-and-value", "n: &n 5\nm: {*n : *n}\n", `{"n":5,"m":{"5":5}}`},
 }
 
@@ -434,7 +436,7 @@ func c06Run(c *fw.Ctx) error {
 	if !c.Thorough() {
 		cfgs = []cfg{{0, false}, {2, true}}
 	}
-	c.Res.Bound = fmt.Sprintf("%d scalars (all strings of length <= %d over 51 code points incl. every control/escape class, look-alike strings, strings ending in line feeds, integers up to 64 bit and beyond, floats incl. exponents/inf/nan) x 5 positions x %d (indent, unwrap) settings x 2 directions; 8 hand-written documents with anchors, aliases (as values and as keys) and merge keys, through the printer and through the encoder alone", len(scalars), map[bool]int{false: 2, true: 3}[c.Thorough()], len(cfgs))
+	c.Res.Bound = fmt.Sprintf("%d scalars (all strings of length <= %d over 51 code points incl. every control/escape class, look-alike strings, strings ending in line feeds, integers up to 64 bit and beyond, floats incl. exponents/inf/nan) x 5 positions x %d (indent, unwrap) settings x 2 directions; 10 hand-written documents with anchors, aliases (as values and as keys) and merge keys, through the printer and through the encoder alone", len(scalars), map[bool]int{false: 2, true: 3}[c.Thorough()], len(cfgs))
 	var idx int64
 	for hi, h := range c06Hand {
 		idx++
